@@ -1294,6 +1294,7 @@ class Frame(ContainerOperand):
         if array.flags.writeable:
             # columns are taken as views of the passed array: copy so that later writes by the caller are not visible
             array = array.copy()
+            array.flags.writeable = False
 
         # from a structured array, we assume we want to get the columns labels
         data, index_arrays, columns_labels = cls._structured_array_to_d_ia_cl(
